@@ -813,7 +813,7 @@ def run(ck):
     ok, nd, real = one_case(ck, c)
     ck.count(c, stats(ck, c, real))
   render_check(ck)
-  total = 900 if ck.tier == 'quick' else 40000
+  total = 1000 if ck.tier == 'quick' else 40000
   budget_s = 45 if ck.tier == 'quick' else 480
   done = 0
   while done < total and ck.elapsed() < budget_s and len(ck.violations) < 20 and len(ck.breaks) < 20:
